@@ -463,20 +463,22 @@ example : runU histDyn UServer.empty demoOps =
 
 /-! ## Wave 2 — the restore as a mechanism fact, the atomic state write -/
 
-theorem restoreC_good (c : Cfg) (h : c.replayIsComplete = true) (d : Dyn σ ρ) : restoreC c d = restore d := by
-  funext p; simp [restoreC, restore, h]
+theorem restoreC_good (c : Cfg) (h : c.restoreOK = true) (d : Dyn σ ρ) : restoreC c d = restore d := by
+  have h1 : c.replayIsComplete = true := by simp only [Cfg.restoreOK, Bool.and_eq_true] at h; exact h.1
+  have h2 : c.replayOrderPreserved = true := by simp only [Cfg.restoreOK, Bool.and_eq_true] at h; exact h.2
+  funext p; simp [restoreC, restore, readLog, h1, h2]
 
-theorem effC_good (c : Cfg) (h : c.replayIsComplete = true) (d : Dyn σ ρ) (s : Server σ) (id : Nat) :
+theorem effC_good (c : Cfg) (h : c.restoreOK = true) (d : Dyn σ ρ) (s : Server σ) (id : Nat) :
     effC c d s id = eff d s id := by
   simp [effC, eff, restoreC_good c h d]
 
-theorem restartC_good (c : Cfg) (h : c.replayIsComplete = true) (d : Dyn σ ρ) (s : Server σ) :
+theorem restartC_good (c : Cfg) (h : c.restoreOK = true) (d : Dyn σ ρ) (s : Server σ) :
     restartC c d s = restart d s := by
   simp [restartC, restart, restoreC_good c h d]
 
 /-- with a complete replay the configured server is the server of wave 1, a crash inside an atomic write being a
 plain crash -/
-theorem stepCC_good (c : Cfg) (h : c.replayIsComplete = true) (d : Dyn σ ρ) (s : Server σ) (op : Op) :
+theorem stepCC_good (c : Cfg) (h : c.restoreOK = true) (d : Dyn σ ρ) (s : Server σ) (op : Op) :
     stepCC c d s op = stepC d s (atomize c.atomicWrite op) := by
   cases op with
   | start id spec => rfl
@@ -490,12 +492,12 @@ theorem stepCC_good (c : Cfg) (h : c.replayIsComplete = true) (d : Dyn σ ρ) (s
       simp only [stepCC, stepC, atomize, effC_good c h, restartC_good c h, ha, if_true]
       cases eff d s id <;> rfl
 
-theorem runCC_good (c : Cfg) (h : c.replayIsComplete = true) (d : Dyn σ ρ) : ∀ (ops : List Op) (s : Server σ),
+theorem runCC_good (c : Cfg) (h : c.restoreOK = true) (d : Dyn σ ρ) : ∀ (ops : List Op) (s : Server σ),
     runCC c d s ops = runC d s (ops.map (atomize c.atomicWrite))
   | [], _ => rfl
   | op :: ops, s => by simp [runCC, runC, stepCC_good c h, runCC_good c h d ops]
 
-theorem finalCC_good (c : Cfg) (h : c.replayIsComplete = true) (d : Dyn σ ρ) : ∀ (ops : List Op) (s : Server σ),
+theorem finalCC_good (c : Cfg) (h : c.restoreOK = true) (d : Dyn σ ρ) : ∀ (ops : List Op) (s : Server σ),
     finalCC c d s ops = finalC d s (ops.map (atomize c.atomicWrite))
   | [], _ => rfl
   | op :: ops, s => by
@@ -540,9 +542,9 @@ theorem startup_perEntry (compress : Bool) : ∀ l : List (Option Persist),
 
 theorem C20_full_of_good (c : Cfg) (h : c.good = true) (d : Dyn σ ρ) : C20_full_cfg c d := by
   have hl : c.loadIsPerEntry = true := by
-    simp only [Cfg.good, Bool.and_eq_true] at h; exact h.2
-  have h : c.replayIsComplete = true := by
-    simp only [Cfg.good, Bool.and_eq_true] at h; exact h.1
+    simp only [Cfg.good, Bool.and_eq_true] at h; exact h.1.2
+  have h : c.restoreOK = true := by
+    simp only [Cfg.good, Cfg.restoreOK, Bool.and_eq_true] at h ⊢; exact ⟨h.1.1, h.2⟩
   intro ops
   have hold := C20_full_holds d (ops.map (atomize c.atomicWrite))
   obtain ⟨_, hi, _⟩ := run_sim d (ops.map (atomize c.atomicWrite)) _ _ (inv_empty d) (rel_empty d)
@@ -566,11 +568,11 @@ theorem map_atomize_false : ∀ ops : List Op, ops.map (atomize false) = ops
   | op :: ops => by cases op <;> simp [atomize, map_atomize_false ops]
 
 /-- the statement of wave 1 is the instance `replayIsComplete, ¬ atomicWrite` -/
-theorem C20_full_of_cfg (d : Dyn σ ρ) (hc : C20_full_cfg ⟨true, false, true⟩ d) : C20_full d := by
+theorem C20_full_of_cfg (d : Dyn σ ρ) (hc : C20_full_cfg ⟨true, false, true, true⟩ d) : C20_full d := by
   intro ops
   have := hc ops
-  simp only [runCC_good ⟨true, false, true⟩ rfl, finalCC_good ⟨true, false, true⟩ rfl, stepCC_good ⟨true, false, true⟩ rfl,
-    effC_good ⟨true, false, true⟩ rfl] at this
+  simp only [runCC_good ⟨true, false, true, true⟩ rfl, finalCC_good ⟨true, false, true, true⟩ rfl, stepCC_good ⟨true, false, true, true⟩ rfl,
+    effC_good ⟨true, false, true, true⟩ rfl] at this
   simp only [map_atomize_false, atomize] at this
   exact ⟨this.1, this.2.1, this.2.2.1⟩
 
@@ -587,18 +589,41 @@ are not replayed, the constant given after the restart is applied to them as wel
 theorem C20_witness_partial_replay (c : Cfg) (h : c.replayIsComplete = false) : ¬ C20_full_cfg c lazyDyn := by
   intro hf
   have h4 := (hf lateOps).1 4
-  obtain ⟨r, a, l⟩ := c
+  obtain ⟨r, a, l, o⟩ := c
   simp only at h
   subst h
-  cases a <;> cases l <;> exact absurd h4 (by decide)
+  cases a <;> cases l <;> cases o <;> exact absurd h4 (by decide)
 
 /-- what the complete replay answers, and what the incomplete one answers -/
-example : (runCC ⟨true, false, true⟩ lazyDyn Server.empty lateOps)[4]? = some (.ok [(1024, "1"), (2048, "1"), (3072, "5")]) := by decide
+example : (runCC ⟨true, false, true, true⟩ lazyDyn Server.empty lateOps)[4]? = some (.ok [(1024, "1"), (2048, "1"), (3072, "5")]) := by decide
 example : (runU lazyDyn UServer.empty lateOps)[4]? = some (.ok [(1024, "1"), (2048, "1"), (3072, "5")]) := by decide
-example : (runCC ⟨false, false, true⟩ lazyDyn Server.empty lateOps)[4]? = some (.ok [(1024, "5"), (2048, "5"), (3072, "5")]) := by decide
+example : (runCC ⟨false, false, true, true⟩ lazyDyn Server.empty lateOps)[4]? = some (.ok [(1024, "5"), (2048, "5"), (3072, "5")]) := by decide
 /-- … and why such a defect passes every history WITHOUT settings after the restart: on-demand computation
 gives the same values then -/
-example : runCC ⟨false, false, true⟩ lazyDyn Server.empty quietOps = runU lazyDyn UServer.empty quietOps := by decide
+example : runCC ⟨false, false, true, true⟩ lazyDyn Server.empty quietOps = runU lazyDyn UServer.empty quietOps := by decide
+
+/-! ### the order of the restored log (wave 4) -/
+
+def lateDigitSpec : Spec := { start := 9, dt := 1, stop := 20, tag := 0 }
+/-- a session whose step labels cross a decimal-digit boundary (9, 10): settings in the first step, crash after the second -/
+def digitOps : List Op := [.start 1 lateDigitSpec, .step 1 [(0, "5")], .step 1 [], .crash, .step 1 []]
+
+example : sortByText [(9, [(0, "5")]), (10, [])] = [(10, []), (9, [(0, "5")])] := by decide
+example : sortByText [(-2, []), (-1, [])] = [(-1, []), (-2, [])] := by decide
+example : sortByText [(1, []), (2, []), (3, [])] = [(1, []), (2, []), (3, [])] := by decide
+
+/-- An adapter round trip that returns the log with its keys sorted as text breaks the continuation: the restored
+session replays step 10 before step 9, so the constant set in step 9 is not in force at 9 and 10. -/
+theorem C20_witness_sorted_keys (c : Cfg) (h : c.replayOrderPreserved = false) : ¬ C20_full_cfg c lazyDyn := by
+  intro hf
+  have h4 := (hf digitOps).1 4
+  obtain ⟨r, a, l, o⟩ := c
+  simp only at h
+  subst h
+  cases r <;> cases a <;> cases l <;> exact absurd h4 (by decide)
+
+example : (runCC ⟨true, false, true, false⟩ lazyDyn Server.empty digitOps)[4]? = some (.ok [(9, "1"), (10, "1"), (11, "5")]) := by decide
+example : (runU lazyDyn UServer.empty digitOps)[4]? = some (.ok [(9, "5"), (10, "5"), (11, "5")]) := by decide
 
 /-! ### the skipping load (wave 3) -/
 
@@ -634,15 +659,15 @@ theorem noLoss_of_atomic (c : Cfg) (h : c.good = true) (ha : c.atomicWrite = tru
 theorem noLoss_witness (c : Cfg) (ha : c.atomicWrite = false) : ¬ NoLossInWrite c histDyn := by
   intro hf
   have := hf [.start 1 lateSpec, .step 1 []] 1 [] 1 { spec := lateSpec, step := 2048, log := [(1024, [])] }
-  obtain ⟨r, a, l⟩ := c
+  obtain ⟨r, a, l, o⟩ := c
   simp only at ha
   subst ha
-  cases r <;> cases l <;> exact absurd (this (by decide)) (by decide)
+  cases r <;> cases l <;> cases o <;> exact absurd (this (by decide)) (by decide)
 
 /-- the torn request is retried after the restart and answered as the uninterrupted session answers it -/
-example : runCC ⟨true, true, true⟩ histDyn Server.empty [.start 1 lateSpec, .step 1 [(0, "c=5")], .crashInWrite 1 [], .step 1 []]
+example : runCC ⟨true, true, true, true⟩ histDyn Server.empty [.start 1 lateSpec, .step 1 [(0, "c=5")], .crashInWrite 1 [], .step 1 []]
     = [.none, .ok [(1024, [(0, "c=5")])], .none, .ok [(1024, [(0, "c=5")]), (2048, [])]] := by decide
-example : runCC ⟨true, false, true⟩ histDyn Server.empty [.start 1 lateSpec, .step 1 [(0, "c=5")], .crashInWrite 1 [], .step 1 []]
+example : runCC ⟨true, false, true, true⟩ histDyn Server.empty [.start 1 lateSpec, .step 1 [(0, "c=5")], .crashInWrite 1 [], .step 1 []]
     = [.none, .ok [(1024, [(0, "c=5")])], .none, .invalid] := by decide
 
 #print axioms C20_full_holds
@@ -653,6 +678,7 @@ example : runCC ⟨true, false, true⟩ histDyn Server.empty [.start 1 lateSpec,
 #print axioms noLoss_witness
 #print axioms stepCC_good
 #print axioms C20_witness_skipping_load
+#print axioms C20_witness_sorted_keys
 #print axioms startup_perEntry
 #print axioms C20_continuation
 #print axioms C20_externalised_continues
